@@ -116,14 +116,23 @@ pub struct Reference { allowed: Vec<Vec<BTreeSet<String>>>, finals: BTreeSet<Vec
 /// and another thread may legitimately observe the state in between.)
 fn reference(cfg: &Config) -> Reference {
     let acc = std::sync::Arc::new(std::sync::Mutex::new((cfg.iter().map(|p| p.iter().map(|_| BTreeSet::new()).collect::<Vec<_>>()).collect::<Vec<_>>(), BTreeSet::new(), BTreeSet::new())));
+    let table = alone_table();
     for order in orders(cfg) {
-        let (cfg2, acc2) = (cfg.clone(), acc.clone());
+        let (cfg2, acc2, table2) = (cfg.clone(), acc.clone(), table.clone());
         loom::model(move || {
             EPOCH.fetch_add(1, Ordering::SeqCst);
             let e = shared_envelope();
             let mut outs: Vec<Vec<String>> = cfg2.iter().map(|_| vec![]).collect();
-            for (t, i) in &order { outs[*t].push(run_op(cfg2[*t][*i], &e)) }
+            let mut flags = 0usize;
+            for (t, i) in &order {
+                let op = cfg2[*t][*i];
+                let txt = run_op(op, &e);
+                if let Some(tb) = &table2 { if tb[flags][op] != txt { panic!("CARRIED-STATE: in a sequential order the call {} returns a text that differs from the one it returns when run alone in a fresh process in the same registry state (state {}): {:?} instead of {:?}", OPS[op], flags, txt.replace('\n', "/").chars().take(200).collect::<String>(), tb[flags][op].replace('\n', "/").chars().take(200).collect::<String>()) } }
+                flags = state_after(flags, op);
+                outs[*t].push(txt)
+            }
             let fin = final_probe(&e);
+            if let Some(tb) = &table2 { let mut f2 = flags; let want: Vec<String> = [1usize, 4, 7, 10].iter().map(|o| { let w = tb[f2][*o].clone(); f2 = state_after(f2, *o); w }).collect(); if want != fin { panic!("CARRIED-STATE: the quiescent probe after a sequential order differs from the run-alone texts of the same registry state (state {}): {:?}", flags, fin.iter().map(|x| x.replace('\n', "/").chars().take(120).collect::<String>()).collect::<Vec<_>>()) } }
             let mut a = acc2.lock().unwrap();
             for (t, o) in outs.iter().enumerate() { for (i, s) in o.iter().enumerate() { a.0[t][i].insert(s.clone()); } }
             a.1.insert(fin); a.2.insert(outs);
@@ -132,6 +141,27 @@ fn reference(cfg: &Config) -> Reference {
     let a = acc.lock().unwrap().clone();
     Reference { allowed: a.0, finals: a.1, joint: a.2 }
 }
+/// registry state a call finds: bit 0 = register_tags() has completed, bit 1 = the custom tag name has been installed
+/// bit 2 = the global format context has been lazily initialised (which also registers the tag names in dcbor's global store)
+fn state_after(flags: usize, op: usize) -> usize { match op { 6 => flags | 1 | 4, 12 => flags | 2 | 4, 0 | 1 | 2 | 3 | 4 | 5 | 13 | 14 => flags | 4, _ => flags } }
+const STATES: usize = 8;
+/// `alone <flags> <op>`: a FRESH PROCESS brings the registries into the state and performs the one call - the text a call "returns when run alone"
+fn alone(flags: usize, op: usize) {
+    install();
+    let out = std::sync::Arc::new(std::sync::Mutex::new(String::new()));
+    let o2 = out.clone();
+    loom::model(move || {
+        EPOCH.fetch_add(1, Ordering::SeqCst);
+        let e = shared_envelope();
+        // initialisation alone, through a read access that formats nothing
+        if flags & 4 != 0 { bc_envelope::with_format_context!(|_ctx: &FormatContext| {}); }
+        if flags & 1 != 0 { run_op(6, &e); }
+        if flags & 2 != 0 { run_op(12, &e); }
+        *o2.lock().unwrap() = run_op(op, &e);
+    });
+    outln!("ALONE {}", json!(out.lock().unwrap().clone()));
+}
+fn alone_table() -> Option<Vec<Vec<String>>> { std::env::var("VC_ALONE_TABLE").ok().and_then(|p| std::fs::read_to_string(p).ok()).and_then(|s| serde_json::from_str(&s).ok()) }
 fn install() {
     assert!(bc_envelope::verif_sync::install_backend(bc_envelope::verif_sync::Backend { acquire, release, once, epoch }));
     assert!(dcbor::verif_sync::install_backend(dcbor::verif_sync::Backend { acquire, release, once, epoch }));
@@ -141,8 +171,6 @@ fn cfg_name(cfg: &Config) -> String { cfg.iter().map(|p| p.iter().map(|o| OPS[*o
 /// child: one loom exploration. Prints `RESULT <json>` on success; a failure panics (loom aborts the model) after writing the failing trace.
 fn child(cfg: Config, bound: Option<usize>, fail_file: String) {
     install();
-    let refset = reference(&cfg);
-    let ref_n = refset.joint.len();
     let nonjoint = std::sync::Arc::new(AtomicUsize::new(0));
     let nj = nonjoint.clone();
     ITERS.store(0, Ordering::SeqCst); EVENTS.store(0, Ordering::SeqCst);
@@ -158,13 +186,15 @@ fn child(cfg: Config, bound: Option<usize>, fail_file: String) {
         let msg = info.to_string();
         // the generator crate cancels coroutines with a silent panic during normal teardown: not a failure of the model
         if msg.contains("/generator-") && msg.contains("yield_.rs") { return }
-        let kind = if msg.contains("deadlock") { "deadlock" } else if msg.contains("NON-LINEARIZABLE") { "non-linearizable" } else if msg.contains("PoisonError") || msg.contains("poison") { "poisoned-lock" } else { "panic" };
+        let kind = if msg.contains("deadlock") { "deadlock" } else if msg.contains("NON-LINEARIZABLE") { "non-linearizable" } else if msg.contains("CARRIED-STATE") { "carried-state" } else if msg.contains("PoisonError") || msg.contains("poison") { "poisoned-lock" } else { "panic" };
         if !std::path::Path::new(&ff).exists() {
             let t = TRACE.lock().map(|t| t.clone()).unwrap_or_default();
             let _ = std::fs::write(&ff, json!({"kind": kind, "config": name2, "iteration": ITERS.load(Ordering::SeqCst), "message": msg.lines().take(4).collect::<Vec<_>>().join(" | "), "lock_trace_of_failing_execution": t}).to_string());
         }
         prev(info);
     }));
+    let refset = reference(&cfg);
+    let ref_n = refset.joint.len();
     let mut b = loom::model::Builder::new();
     b.preemption_bound = bound;
     b.max_branches = 200_000;
@@ -218,6 +248,7 @@ fn main() {
         child(cfg, bound, args[4].clone());
         return;
     }
+    if args.get(1).map(|s| s.as_str()) == Some("alone") { alone(args[2].parse().unwrap(), args[3].parse().unwrap()); return }
     let root = std::env::var("VERIF_ROOT").unwrap_or_else(|_| "/verif".into());
     let mut tier = std::env::var("VERIF_TIER").unwrap_or_else(|_| "quick".into());
     let mut replay: Option<String> = None;
@@ -234,6 +265,25 @@ fn main() {
     let known: Vec<(String, String)> = std::fs::read_to_string(format!("{root}/known_findings.json")).ok().and_then(|s| serde_json::from_str::<Value>(&s).ok()).map(|v| v["findings"].as_array().cloned().unwrap_or_default().iter().filter(|f| f["property"] == "C20" && f["status"] == "known").map(|f| (f["key"].as_str().unwrap_or("").to_string(), f["what"].as_str().unwrap_or("").to_string())).collect()).unwrap_or_default();
     let exe = std::env::current_exe().unwrap();
     let dir = format!("{root}/replays/C20"); let _ = std::fs::create_dir_all(&dir);
+    // run-alone table: one fresh process per (registry state, operation)
+    let table_path = format!("{dir}/.alone-table-{}.json", std::process::id());
+    {
+        let n = OPS.len();
+        let cells: Vec<(usize, usize)> = (0..STATES).flat_map(|f| (0..n).map(move |o| (f, o))).collect();
+        let table = std::sync::Mutex::new(vec![vec![String::new(); n]; STATES]);
+        let nx = AtomicUsize::new(0);
+        std::thread::scope(|s| { for _ in 0..16 { s.spawn(|| loop {
+            let k = nx.fetch_add(1, Ordering::SeqCst); if k >= cells.len() { break }
+            let (f, o) = cells[k];
+            let out = std::process::Command::new(&exe).arg("alone").arg(f.to_string()).arg(o.to_string()).output().expect("spawn alone");
+            let so = String::from_utf8_lossy(&out.stdout).to_string();
+            match so.lines().find(|l| l.starts_with("ALONE ")).and_then(|l| serde_json::from_str::<String>(&l[6..]).ok()) {
+                Some(t) if out.status.success() => table.lock().unwrap()[f][o] = t,
+                _ => { eprintln!("MACHINERY: run-alone process for state {f} op {} failed: {}", OPS[o], String::from_utf8_lossy(&out.stderr).lines().rev().take(4).collect::<Vec<_>>().join(" | ")); table.lock().unwrap()[f][o] = format!("<run-alone process failed: state {f} op {o}>") }
+            }
+        }); } });
+        std::fs::write(&table_path, serde_json::to_string(&*table.lock().unwrap()).unwrap()).expect("write table");
+    }
     let results = std::sync::Mutex::new(Vec::<Value>::new());
     let failures = std::sync::Mutex::new(Vec::<Value>::new());
     let next = AtomicUsize::new(0);
@@ -247,7 +297,7 @@ fn main() {
                 let fail_file = format!("{dir}/.fail-{}-{k}.json", std::process::id());
                 let _ = std::fs::remove_file(&fail_file);
                 let out = std::process::Command::new(&exe).arg("child").arg(serde_json::to_string(cfg).unwrap()).arg(bound.map(|b| b.to_string()).unwrap_or_else(|| "none".into())).arg(&fail_file)
-                    .env("VC_MAX_SECS", if tier == "thorough" { "900" } else { "120" }).output().expect("spawn child");
+                    .env("VC_MAX_SECS", if tier == "thorough" { "900" } else { "120" }).env("VC_ALONE_TABLE", &table_path).output().expect("spawn child");
                 let stdout = String::from_utf8_lossy(&out.stdout).to_string();
                 if out.status.success() {
                     if let Some(l) = stdout.lines().find(|l| l.starts_with("RESULT ")) { results.lock().unwrap().push(serde_json::from_str(&l[7..]).unwrap()) }
@@ -259,6 +309,7 @@ fn main() {
             });
         }
     });
+    let _ = std::fs::remove_file(&table_path);
     let results = results.into_inner().unwrap(); let failures = failures.into_inner().unwrap();
     if replay.is_some() {
         let kinds: Vec<String> = failures.iter().map(|f| f["failure"]["kind"].as_str().unwrap_or("").to_string()).collect();
